@@ -82,7 +82,11 @@ def operand_kind(ctx, b, o, depth=0):
         if len(ds) == 1 and ds[0][0] == 'assign' and not ds[0][3]['pl'].get('p'):
             rv = ds[0][3]['rv']
             if rv['rv'] == 'cast' and op_local(rv['op']) is not None:
-                return 'cast(%s)' % (rv['op'].get('pty') or b.local_ty(op_local(rv['op']))['s'])
+                src = (rv['op'].get('pty') or b.local_ty(op_local(rv['op']))['s'])
+                # only widening casts matter (a narrow value accumulated into a wider type)
+                if INT_BITS.get(src, 0) and INT_BITS.get(ty, 0) and INT_BITS[src] < INT_BITS[ty]:
+                    return 'cast(%s)' % src
+                return ty
             if rv['rv'] == 'use' and op_place(rv['op']) is not None:
                 return operand_kind(ctx, b, rv['op'], depth + 1)
             if rv['rv'] == 'unop' and rv['op'] == 'PtrMetadata':
@@ -178,7 +182,7 @@ def rule_inv_arith(ctx):
     if stale:
         r.notes.append('table entries no longer matched (harmless): %s' % stale)
     r.notes.append('%d sites discharged automatically, %d by table' % (auto, sum(found.values())))
-    r.require_floor(40, 'arithmetic assert sites')
+    r.require_floor(25, 'arithmetic assert sites')
     return r
 
 
@@ -267,7 +271,7 @@ def rule_inv_panic(ctx):
     if stale:
         r.notes.append('table entries no longer matched (harmless): %s' % stale)
     r.notes.append('automatic: %s; by table: %d' % (dict(auto), sum(found.values())))
-    r.require_floor(40, 'panic-capable call sites')
+    r.require_floor(25, 'panic-capable call sites')
     return r
 
 
